@@ -75,6 +75,8 @@ def three_d(ctx, g):
         okw = val[2][2][0] == "field" and val[2][2][2] == "edge_to_word" and val[2][2][1] == ("call", "fundamental_group::fundamental_group", (base,))
         ctx.require(okw, "T9-cover-of-oriented-cover-3d", b.name, "edge_to_word of fundamental_group(base)", "edge words belong to the fundamental group of the covered symbol",
                     "edge words do not come from fundamental_group(<covered symbol>): " + show(val[2][2], 1)[:80], b.span_of(bi, si))
+        for sbi, st_ in b.calls(exact="fpgroups::stabilizer::stabilizer"):
+            every_iteration_reaches(ctx, "T3-no-skipped-candidate", b, sbi, "candidate-loop->stabilizer", "some candidate table is skipped without being tested: a pseudo-toroidal cover can be missed")
         ok = False
         why = "no dominating comparison of abelian invariants"
         for ei, (term, v) in [(e, tv) for e, tv in b.dominating_edges(bi)]:
